@@ -142,13 +142,6 @@ structure WsUrl where
   resource : Bytes
 deriving DecidableEq, Repr
 
-/-- `_splitparams(path)`: the `;params` of the LAST path segment are cut off (`urlparse` does this for ws/wss because
-`autobahn.websocket.util` registers them in `uses_params`) -/
-def splitParams (path : Bytes) : Bytes :=
-  match rcut 47 path with
-  | some (dir, last) => (match cut 59 last with | some (a, _) => dir ++ [47] ++ a | none => path)
-  | none => (match cut 59 path with | some (a, _) => a | none => path)
-
 /-- `parse_url(url)`; `none` = ValueError -/
 def parseUrl (brOk : Bytes → Bool) (url : Bytes) : Option WsUrl :=
   match urlsplit brOk url with
@@ -160,9 +153,10 @@ def parseUrl (brOk : Bytes → Bool) (url : Bytes) : Option WsUrl :=
     | some h =>
       if u.fragment ≠ [] then none else
       if h = b!"unix" then none else
-      let path := splitParams u.path
-      let ppath := if path = [] then b!"/" else path
-      let resource := if u.query ≠ [] then ppath ++ b!"?" ++ u.query else ppath
+      -- the resource is built from the path as `urlsplit` returns it, `;parameters` of the last segment included
+      -- (fix 08167c09; before it from `urlparse().path`, which cuts them off)
+      let rpath := if u.path = [] then b!"/" else u.path
+      let resource := if u.query ≠ [] then rpath ++ b!"?" ++ u.query else rpath
       match port u.netloc with
       | none => none
       | some p =>
